@@ -4,7 +4,7 @@ import os
 
 VERIF = os.path.dirname(os.path.dirname(os.path.abspath(__file__)))
 
-RS_NOTE = ("Trusted / assumed: A-REAL (f64 treated as exact reals: the rounding envelope of the statement is NOT proved), "
+RS_NOTE = ("Trusted / assumed: A-REAL (f64 treated as exact reals: the rounding envelope of the statement is NOT proved; it is only exercised by a bounded known-answer corpus listed under `bounded` in the evidence), "
            "A-INT (counts < 2^53), A-LIB (to_f64, sqrt, powf(.,1.5), pow, unwrap, clone as assumed contracts), "
            "own rsx + executor, sympy, z3 5.1 nlsat, Verus for the history lemma.")
 RS_TECH = "contract-based deductive verification: own VC generator over the real function bodies (syn AST), sympy normal forms + z3 QF_NRA; Verus history lemmas"
@@ -27,7 +27,7 @@ CHECKS = {
     "C06": dict(engine="K", technique="Kani proof harnesses on the real crate (symbolic valid edges, every f64 sample), unwinding assertions on", design="6/C06",
         text="find/add against the half-open-bin contract for fully symbolic valid edge vectors (infinite, repeated edges) and every f64 sample "
              "including NaN; frame over the whole count array; complete per LEN in {1,2,3,4} (thorough: 10, 100 for find, const-generic copy).",
-        note="Trusted: CBMC IEEE-754 comparisons, Kani's compilation of core::slice::binary_search_by; counts < 2^40; per-LEN configuration list."),
+        note="Trusted: CBMC IEEE-754 comparisons, Kani's compilation of core::slice::binary_search_by; counts < 2^40; per-LEN configuration list. LEN 33/100 in the quick tier only through a bounded linear-scan corpus; add is also proved modularly from find's Kani function contract (stub_verified)."),
     "C08": dict(engine="RS+VL", technique=RS_TECH, design="6/C08", note=RS_NOTE + " requires weights >= 0.",
         text="rep of (n,S1,S2,W,W2,WX) preserved by WeightedMean/WeightedMeanWithError add and merge in every emptiness-by-weight case "
              "(zero weight first included), no division by zero, all accessors against the weighted formulas."),
@@ -40,11 +40,11 @@ CHECKS = {
     "C12": dict(engine="K", technique="Kani proof harness against an oracle written from the statement; all input lists, all f64 bit patterns", design="6/C12",
         text="from_ranges compared with an in-harness oracle (first offending position, error kind, ranges identity, zero counts) for LEN+3 symbolic "
              "f64 and symbolic length; with_const_width: edges non-decreasing, first == start, bit-precise. Complete per LEN.",
-        note="Trusted: CBMC float model; LEN in {1..4} (const width: {1,2} quick, {3,4} thorough); 'within a few ulps' of edge i is not proved bit-precisely."),
+        note="Trusted: CBMC float model; LEN in {1..4} (const width: {1,2} quick, {3,4} thorough); edge i = start + i*(end-start)/LEN is proved under exact reals (RS); 'within a few ulps' only by a bounded corpus (4 ulps, LEN up to 100)."),
     "C13": dict(engine="K+VL", technique="Kani proof harnesses (state-level bin-wise contracts), structural dominance check on the syn AST, Verus merge-tree lemma", design="6/C13",
         text="merge/+= bin-wise sum with edges kept and agreement, commutativity, empty identity, reset, *=, mismatch => the call does not return "
              "(post-call cover unreachable), iteration order/length; no-mutation-on-mismatch by 'asserts dominate writes' on the real AST.",
-        note="Trusted: CBMC; counts < 2^40, multiplier < 2^20; float-valued views are decided under exact reals (not yet: see evidence), LEN list per tier."),
+        note="Trusted: CBMC; counts < 2^40, multiplier < 2^20; float-valued views are decided under exact reals (RS) and bit-for-bit only on a bounded corpus; LEN list per tier."),
     "C05": dict(engine="RS", technique=RS_TECH + "; stage-wise contracts on the real body of Quantile::add against a clean-room P-square reference", design="6/C05",
         note=RS_NOTE + " A-SPEC: reference step transcribed from Jain & Chlamtac 1985. The composition of the four stage contracts over the stream is argued, not machine-checked.",
         text="Quantile::add (n>=5) is proved equal to the paper's step stage by stage (prologue; adjust marker 1,2,3), each from an arbitrary symbolic "
@@ -57,7 +57,8 @@ CHECKS = {
         text="For every Merge type: merging new() into a leaves the observable state bit-for-bit, merging a into new()/default() yields a's state bit-for-bit, "
              "len adds exactly, is_empty <=> len==0, the argument is unchanged. States are arbitrary under is_valid (proved inductive elsewhere).",
         note="Trusted: CBMC; is_valid over-approximates reachability; define_moments! N in {4,6}, histograms LEN in {1,3}; len_adds of Kurtosis/MomentsN in thorough tier (quick: C02's integer obligation)."),
-    "C15": dict(engine="RS+K", technique=RS_TECH + "; Kani for new() panics-iff and bit-precise bookkeeping", design="6/C15", note=RS_NOTE,
+    "C15": dict(engine="RS+K", technique=RS_TECH + "; Kani for new() panics-iff and bit-precise bookkeeping", design="6/C15",
+        note=RS_NOTE + " One OPEN KNOWN FINDING (known_findings.json): quantile() is NaN when the spread of >= 5 finite observations overflows f64; magnitudes where f64 over/underflows are covered only by the bounded corpus extreme_magnitudes.*.",
         text="Well-formed marker state as an inductive invariant of the stage contracts of add (extremes = running min/max, ordered heights, exact count, p untouched); "
              "quantile() NaN iff empty and inside [min,max] in every phase; Quantile::new panics exactly for p outside [0,1] or NaN (Kani, all f64)."),
     "C16": dict(engine="K+RS", technique="Kani proof harnesses (sentinel table, one observation, inductive constant-stream step), bit-precise", design="6/C16",
